@@ -1,5 +1,5 @@
 (* Correspondence case and checker for C12 (shared dynsampler registry, worker-local caches). *)
-From Refinery Require Export Lib.Base Model.TraceKey Model.Registry.
+From Refinery Require Export Lib.Base Lib.Strs_samp Model.Registry.
 
 Record case := {
   c_cfg : econfig;                        (* rules in force at the start *)
